@@ -1,8 +1,27 @@
 (* C08_Model.v — executable model of /repo/cache/cache.go (the expiring cache),
-   transcribed statement by statement from the Go code AFTER the four small
-   repairs of fixes/builder-c08 (DESIGN §7 #10–#13); the four functions as they
-   were shipped are kept at the end ([*_shipped]) for the refutation witnesses.
-   No proofs in this file.
+   transcribed statement by statement from the Go code as it is in /repo now:
+   AFTER the four small repairs of fixes/builder-c08 (DESIGN §7 #10–#13) and
+   after commit 8bf6dc1 (Set and Update take the write lock themselves and call
+   the unexported, lock-free [get] and [add]; the exported Get is RLock + get).
+   The four functions as they were shipped are kept at the end ([*_shipped])
+   for the refutation witnesses.  No proofs in this file.
+
+   Go function (cache/cache.go)         Gallina
+     New            57-70               [new]  (+ the goroutine: [tick])
+     Set            74-86               [set2] / [set]
+     SetDefault     89-91               [set_default]
+     add            97-127              [add2] / [add], deadline: [exp_of]
+     Get            132-137             [get]  (RLock; return c.get(key))
+     get            140-151             [get]
+     Update         163-172             [update2] / [update]
+     Delete/delete  175-191             [delete] / [delete_]
+     DeleteExpired  194-211             [delete_expired]
+     Flush          214-218             [flush]
+     List           221-233             [list_]   (a snapshot copy of the map)
+     Count          236-242             [count]
+     MapToCache     245-254             [map_to_cache]
+     IsExpired      257-265             [is_expired]
+     cleanup        268-280             [tick]
 
    Conventions (DESIGN §3, CONTRIBUTING §1)
    * K ~string           ↦ Z (an opaque comparable key)
@@ -14,17 +33,42 @@
                            ([al_put] overwrites in place or appends, [al_del]
                            filters); nothing depends on the order except the
                            order in which [List] is printed (sorted on the wire)
+   * the RWMutex         ↦ nothing: every exported method holds the lock (write
+                           lock: Set Update Delete DeleteExpired Flush; read
+                           lock: Get List Count IsExpired) for its whole body,
+                           so calls are atomic; MapToCache is a sequence of
+                           Sets (it takes no lock itself).  That calls of
+                           different goroutines (the janitor!) interleave only
+                           as whole calls is what the controlled-scheduler stage
+                           of ./check C08 tests on the real code.
    * time.Now().UnixNano ↦ the argument [now : Z] of every operation that reads
-                           the clock.  One API call reads the clock up to three
-                           times (Set: Get, add, add's Get); the model gives the
-                           whole call one instant — see [set2] below for the
-                           two-instant variant of Set/Update and
-                           C08_Proofs.set2_* for why the difference is invisible
-                           unless a deadline falls between the reads
-   * time.Duration       ↦ Z nanoseconds; time.Time.Add is [+] (no saturation:
-                           durations far from 2^63)
+                           the clock.  Clock reads, in program order:
+                             get        one, and only if the key is stored with
+                                        a positive deadline (line 143)
+                             add        one iff the effective duration is > 0
+                                        (line 104), then get's (line 109)
+                             Set/Update get's (80/167), then add's two
+                             DeleteExpired  one, BEFORE taking the lock (197)
+                             IsExpired  one, only for a stored positive deadline
+                           [set2]/[update2]/[add2] name the instants separately;
+                           [set]/[update]/[add] give the whole call one instant
+                           — see C08_Props.C08_set_two_clock_readings for why
+                           the difference is invisible unless a deadline of the
+                           SAME key falls between the reads
+   * time.Duration       ↦ Z nanoseconds (an int64 in Go: the theorems that
+                           depend on it assume durations <= MaxInt64).
+                           time.Now().Add(d).UnixNano() is [wrap64 (now + d)]:
+                           Time.Add keeps seconds and nanoseconds apart and
+                           does not overflow for |d| < 292 years, UnixNano then
+                           computes sec*1e9+nsec in int64 and WRAPS AROUND
+                           (measured on the real code: Set(k,v,MaxInt64) stores
+                           now+MaxInt64-2^64 < 0).  A wrapped deadline is
+                           negative, and every test on a deadline is guarded by
+                           `expiration > 0`, so such an entry never expires —
+                           which is what the property asks of an entry whose
+                           deadline lies beyond the last representable instant.
    * errors              ↦ option Z (None = nil), small enum below
-   * (item, err) of Get  ↦ a pair of options, so that the `item != nil && err
+   * (item, err) of get  ↦ a pair of options, so that the `item != nil && err
                            != nil` tests can be transcribed literally
    * the cleanup goroutine ↦ the operation [tick]: DeleteExpired at an
                            arbitrary instant, only when cleanupInt > 0 *)
@@ -34,6 +78,12 @@ Local Open Scope Z_scope.
 
 Definition NoExpiration : Z := -1.
 Definition DefaultExpiration : Z := 0.
+
+(* int64 arithmetic: the value an int64 addition/multiplication leaves *)
+Definition max_i64 : Z := 9223372036854775807.
+Definition wrap64 (z : Z) : Z :=
+  if (-9223372036854775808 <=? z) && (z <=? max_i64) then z   (* (the same value, without a division) *)
+  else (z + 9223372036854775808) mod 18446744073709551616 - 9223372036854775808.
 
 (* error enum *)
 Definition E_EXISTS : Z := 1.     (* "item with key '%v' already exists…"      Set / add *)
@@ -82,7 +132,9 @@ Section Cache.
   (* New(expTime, cleanupTime) *)
   Definition new (e ci : Z) : cache := mkCache [] e ci.
 
-  (* Get: cache.go:129-144 *)
+  (* get (unexported, caller holds the lock): cache.go:140-151; the exported
+     Get (132-137) is RLock + get.  [now] is read only in the branch
+     `item.expiration > 0` (line 143). *)
   Definition get (c : cache) (key now : Z) : option item * option Z :=
     match al_get key (items c) with
     | Some it =>
@@ -92,16 +144,22 @@ Section Cache.
     | None => (None, Some E_NOTFOUND)
     end.
 
-  (* the deadline computed at the top of add: cache.go:92-102 *)
+  (* the deadline computed at the top of add: cache.go:98-107
+       var exp int64                                      (0)
+       if d == DefaultExpiration { d = c.expTime }
+       if d > 0 { exp = time.Now().Add(d).UnixNano() }    (int64: wraps around)
+       else if d < 0 { exp = int64(NoExpiration) } *)
   Definition exp_of (c : cache) (d now : Z) : Z :=
     let d := if d =? DefaultExpiration then expTime c else d in
-    if d >? 0 then now + d
+    if d >? 0 then wrap64 (now + d)
     else if d <? 0 then NoExpiration
     else 0.
 
-  (* add: cache.go:91-124.  [tadd] is the instant of its time.Now(), [tget] the
-     instant of the Get it performs afterwards (whose result only feeds a check
-     that can never fire: Get never returns an item together with an error). *)
+  (* add (unexported, caller holds the write lock): cache.go:97-127.  [tadd] is
+     the instant of its time.Now() (line 104), [tget] the instant of the get it
+     performs afterwards (line 109; its result only feeds a check that can
+     never fire: get never returns an item together with an error), then the
+     empty-string test (114-119), then the store (121-124). *)
   Definition add2 (c : cache) (key : Z) (val : V) (d tadd tget : Z) : cache * option Z :=
     let exp := exp_of c d tadd in
     let '(it, err) := get c key tget in
@@ -112,7 +170,11 @@ Section Cache.
   Definition add (c : cache) (key : Z) (val : V) (d now : Z) : cache * option Z :=
     add2 c key val d now now.
 
-  (* Set (after repair #10: the error of add is returned): cache.go:74-83 *)
+  (* Set (after repair #10: the error of add is returned; after 8bf6dc1: one
+     write-lock acquisition around get and add): cache.go:74-86.
+       item, err := c.get(key)              reads the clock at [tget] iff stored with a deadline
+       if item != nil && err == nil { return "already exists" }
+       return c.add(key, val, d)            deadline from [tadd], then get again at [tadd] or later *)
   Definition set2 (c : cache) (key : Z) (val : V) (d tget tadd : Z) : cache * option Z :=
     let '(it, err) := get c key tget in
     if is_some it && negb (is_some err) then (c, Some E_EXISTS)
@@ -125,7 +187,8 @@ Section Cache.
   Definition set_default (c : cache) (key : Z) (val : V) (now : Z) : cache * option Z :=
     set c key val DefaultExpiration now.
 
-  (* Update: cache.go:156-162 *)
+  (* Update: cache.go:163-172 (write lock; get; the dead test `item != nil &&
+     err != nil`; add) *)
   Definition update2 (c : cache) (key : Z) (val : V) (d tget tadd : Z) : cache * option Z :=
     let '(it, err) := get c key tget in
     if is_some it && is_some err then (c, err)
@@ -134,7 +197,7 @@ Section Cache.
   Definition update (c : cache) (key : Z) (val : V) (d now : Z) : cache * option Z :=
     update2 c key val d now now.
 
-  (* delete (unexported) and Delete *)
+  (* delete (unexported): cache.go:183-191, and Delete: 175-180 *)
   Definition delete_ (m : imap) (key : Z) : imap * option Z :=
     match al_get key m with
     | Some _ => (al_del key m, None)
@@ -148,8 +211,9 @@ Section Cache.
   Definition purgeable (it : item) (now : Z) : bool :=
     (expiration it >? 0) && (now >? expiration it).
 
-  (* DeleteExpired (after repairs #13 and #11): one clock reading, then a range
-     over the map deleting the purgeable entries and joining delete's errors *)
+  (* DeleteExpired (after repairs #13 and #11): cache.go:194-211.  One clock
+     reading (line 197, before the lock is taken), then a range over the map
+     deleting the purgeable entries and joining delete's errors *)
   Definition delete_expired (c : cache) (now : Z) : cache * option Z :=
     let '(m, err) :=
       fold_left (fun (acc : imap * option Z) (e : Z * item) =>
@@ -160,28 +224,33 @@ Section Cache.
                 (items c) (items c, None) in
     (with_items c m, err).
 
-  (* Flush, List, Count *)
+  (* Flush 214-218, List 221-233 (a copy of the map: expired-but-unpurged
+     entries included), Count 236-242 *)
   Definition flush (c : cache) : cache := with_items c [].
   Definition list_ (c : cache) : imap := items c.
   Definition count (c : cache) : Z := Z.of_nat (length (items c)).
 
-  (* MapToCache (after repair #11): Set for every entry of the Go map, in the
-     order the runtime iterates ([m] lists the entries in that order) *)
+  (* MapToCache (after repair #11): cache.go:245-254.  Set for every entry of
+     the Go map, in the order the runtime iterates ([m] lists the entries in
+     that order); every Set takes the lock and reads the clock by itself — the
+     model gives them one instant, the harness uses MapToCache with several
+     entries only where that cannot matter (no deadline stored or consulted) *)
   Definition map_to_cache (c : cache) (m : list (Z * V)) (d now : Z) : cache * option Z :=
     fold_left (fun (acc : cache * option Z) (kv : Z * V) =>
                  let '(c', e) := set (fst acc) (fst kv) (snd kv) d now in
                  (c', join (snd acc) e))
               m (c, None).
 
-  (* IsExpired (after repair #12) *)
+  (* IsExpired (after repair #12): cache.go:257-265 *)
   Definition is_expired (c : cache) (key now : Z) : bool :=
     match al_get key (items c) with
     | Some it => (expiration it >? 0) && (now >? expiration it)
     | None => false
     end.
 
-  (* one firing of the cleanup goroutine's ticker; the goroutine exists only
-     when cleanupInt > 0 *)
+  (* one firing of the cleanup goroutine's ticker (cache.go:268-280: on every
+     tick.C, c.DeleteExpired(), result dropped); the goroutine exists only when
+     cleanupInt > 0 (New, line 61) *)
   Definition tick (c : cache) (now : Z) : cache :=
     if cleanupInt c >? 0 then fst (delete_expired c now) else c.
 
@@ -252,10 +321,12 @@ Section Cache.
   Definition s_live (s : spec) (k now : Z) : bool :=
     match al_get k (sm s) with Some e => e_live e now | None => false end.
 
-  (* the deadline of an entry stored at [now] with duration argument [d] *)
+  (* the deadline of an entry stored at [now] with duration argument [d].
+     Instants are int64 nanoseconds: a deadline beyond the last representable
+     instant (MaxInt64 = 11 April 2262) is no deadline — no instant is past it. *)
   Definition deadline_of (s : spec) (d now : Z) : option Z :=
     let d' := if d =? 0 then s_default s else d in
-    if d' >? 0 then Some (now + d') else None.
+    if d' >? 0 then (if now + d' <=? max_i64 then Some (now + d') else None) else None.
 
   Inductive sout :=
   | SErr (failed : bool)
